@@ -33,6 +33,8 @@ type Shard struct {
 	MaxExecs int64  `json:"maxexecs,omitempty"`
 	DeadS    int    `json:"deadline_s,omitempty"`
 	Seed     uint64 `json:"seed,omitempty"`
+	Part     int      `json:"part,omitempty"`  // this shard explores the first-level branches with index Part modulo Parts
+	Parts    int      `json:"parts,omitempty"`
 	Bounds   [][2]int `json:"bounds,omitempty"` // successive (preemption, fault) bounds explored with one shared state cache; default [[pre,fault]]
 }
 
@@ -98,7 +100,7 @@ func runShard(sh Shard) *ShardResult {
 	r := &mc.Result{Outcomes: map[string]int64{}, Violations: map[string]*mc.Violation{}, Complete: true}
 	var per []BoundResult
 	for _, b := range bounds {
-		cfg := mc.Config{PreBound: b[0], FaultBound: b[1], MaxSteps: s.MaxSteps, NoCache: sh.NoCache, Delay: sh.Delay, MaxExecs: sh.MaxExecs, Seed: sh.Seed, Deadline: deadline, Cache: cache}
+		cfg := mc.Config{PreBound: b[0], FaultBound: b[1], MaxSteps: s.MaxSteps, NoCache: sh.NoCache, Delay: sh.Delay, MaxExecs: sh.MaxExecs, Seed: sh.Seed, Deadline: deadline, Cache: cache, Part: sh.Part, Parts: sh.Parts}
 		before := int64(cache.Len())
 		rb := mc.Explore(cfg, s.Body, s.Oracle)
 		r.Execs += rb.Execs
@@ -257,7 +259,11 @@ func drive(id string) int {
 		fmt.Fprintln(os.Stderr, "no mc plan for", id)
 		return 2
 	}
-	c := vlib.New(id, plan.Level)
+	prop := id
+	if plan.Property != "" {
+		prop = plan.Property
+	}
+	c := vlib.New(prop, plan.Level)
 	shards := plan.Quick
 	if c.Thorough() {
 		shards = plan.Thorough
